@@ -62,6 +62,7 @@ type solverSpec struct {
 
 var solvers = map[string]solverSpec{
 	"z3-new": {"z3-new", func(t int, f string) []string { return []string{fmt.Sprintf("-T:%d", t), f} }, "(set-option :produce-models true)\n"},
+	"z3-new-as2": {"z3-new", func(t int, f string) []string { return []string{fmt.Sprintf("-T:%d", t), "smt.arith.solver=2", f} }, "(set-option :produce-models true)\n"},
 	"z3":     {"z3", func(t int, f string) []string { return []string{fmt.Sprintf("-T:%d", t), f} }, "(set-option :produce-models true)\n"},
 	"cvc5":   {"cvc5", func(t int, f string) []string { return []string{fmt.Sprintf("--tlimit=%d", t*1000), f} }, "(set-option :produce-models true)\n(set-logic ALL)\n"},
 }
@@ -196,8 +197,8 @@ func decide(ob *Obligation, script string, cfg *SolverCfg) *ObResult {
 		v, solver, out string
 		secs           float64
 	}
-	ch := make(chan r, 3)
-	names := []string{"z3", "cvc5", "z3-new"}
+	ch := make(chan r, 4)
+	names := []string{"z3-new-as2", "z3", "cvc5", "z3-new"}
 	for _, n := range names {
 		go func(n string) {
 			v, o, s := runSolver(ctx, n, script, cfg.LongTimeout, cfg.Seed+1, false)
